@@ -99,13 +99,21 @@ def forceDefault : Kind → Bool
 def boolPy (b : Bool) : String := if b then "True" else "False"
 def boolLiquid (b : Bool) : String := if b then "true" else "false"
 
+/-- `repr(s)` for a string of printable ASCII: double quotes when it holds a `'` and no `"`, else single quotes
+    with `'` escaped; backslashes doubled -/
+def reprStr (s : String) : String :=
+  let cs := s.toList
+  let esc := fun (q : Char) => String.join (cs.map fun c =>
+    if c == '\\' then "\\\\" else if c == q then "\\" ++ q.toString else c.toString)
+  if cs.contains '\'' && !cs.contains '"' then "\"" ++ esc '"' ++ "\"" else "'" ++ esc '\'' ++ "'"
+
 mutual
-/-- `repr(d)` (strings are assumed free of quotes, backslashes and control characters) -/
+/-- `repr(d)` (strings are assumed to be printable ASCII) -/
 def pyRepr : Data → String
   | .nil => "None"
   | .bool b => boolPy b
   | .int i => toString i
-  | .str s => "'" ++ s ++ "'"
+  | .str s => reprStr s
   | .list xs => "[" ++ pyReprList xs ++ "]"
   | .dict kvs => "{" ++ pyReprKvs kvs ++ "}"
 def pyReprList : List Data → String
